@@ -30,6 +30,15 @@ import (
 //   rblk t=<unix> txs=<id>:<in>+<in>:<out>+<out>;...      in = e | <txid>.<idx>;  out = x.<amt> | <scope>.<0|1>.<idx>.<amt>
 //   rrecover w=<W> locked=<0|1> failat=<n>                 create from seed, sync (n-th FilterBlocks call fails once)
 //   rrestart w=<W> failat=<n>                              stop, reopen, sync (recovery resumes above the wallet's tip)
+//     both take the INTERRUPTION options
+//       lockat=<k> how=lock|timeout|stop   while recovery() fetches block k (it is parked inside the backend's
+//                                          GetBlockHash(k)) the wallet is locked (Wallet.Lock), its unlock timeout
+//                                          fires, or it is stopped and unloaded; then the loop is released.  lock /
+//                                          timeout: the wallet carries on in-process (reply as usual); stop: reply
+//                                          `interrupted-and-stopped`, a later rrestart resumes.
+//       failat=<n> halt=1                  the wallet runs with a 1 h sync retry interval; when the n-th FilterBlocks
+//                                          call fails the wallet is stopped and unloaded BEFORE any in-process retry:
+//                                          reply `failed-and-stopped`, a later rrestart resumes in a "new process".
 //   rstate
 //   rlease op=<txid>.<idx> | rrelease op=<txid>.<idx>      Wallet.LeaseOutput (1 h) / ReleaseOutput on a recovered output
 //   rmempool tx=<id>:<in>+<in>:<out>                       an unmined relevant tx (no wallet outputs) reaches the wallet;
@@ -136,9 +145,13 @@ type recRunner struct {
 	tainted bool  // an injected FilterBlocks failure fired (in-process retry): the rest of the case is not compared
 	paidMax map[[2]int]int
 	leased  map[[2]int]bool // outputs currently leased through rlease
-	leases  int // number of rlease ops so far (context tag of the oracle keys)
-	mempool int // number of rmempool ops so far
+	leases  int             // number of rlease ops so far (context tag of the oracle keys)
+	mempool int             // number of rmempool ops so far
+	pending string          // how the previous run ended if it was stopped mid-recovery (context tag of the next rrestart)
 }
+
+// recBatch is wallet.recoveryBatchSize.
+const recBatch = 2000
 
 func (r *recRunner) Close() {
 	if r.env != nil {
@@ -262,7 +275,7 @@ func (r *recRunner) Exec(op string) (string, string) {
 		}
 		r.txs, r.order, r.nextBlk, r.scanned, r.hypOK, r.tainted = map[int]*rTx{}, nil, 1, 0, true, false
 		r.paidMax = map[[2]int]int{}
-		r.leases, r.mempool, r.leased = 0, 0, map[[2]int]bool{}
+		r.leases, r.mempool, r.leased, r.pending = 0, 0, map[[2]int]bool{}, ""
 		return "ok", ""
 	case "rlease", "rrelease":
 		if r.env == nil || r.env.w == nil {
@@ -343,10 +356,11 @@ func (r *recRunner) Exec(op string) (string, string) {
 		}
 		return "ok", ""
 	case "rrecover":
-		if r.env == nil || r.env.w != nil {
+		if r.env == nil || r.env.w != nil || r.env.loader != nil || !r.interruptOK(kv) {
 			return "bad-op", ""
 		}
 		r.w = uint32(atoi(kv["w"]))
+		r.env.retry = retryFor(kv)
 		if err := r.env.create(seedFor(r.seed), params.GenesisBlock.Header.Timestamp.Add(-240*time.Hour), r.w); err != nil {
 			return "err create", ""
 		}
@@ -358,15 +372,21 @@ func (r *recRunner) Exec(op string) (string, string) {
 		}
 		return r.syncAndReport(kv, "recover")
 	case "rrestart":
-		if r.env == nil || r.env.loader == nil {
+		if r.env == nil || r.env.loader == nil || !r.interruptOK(kv) {
 			return "bad-op", ""
 		}
 		r.env.stop()
 		r.w = uint32(atoi(kv["w"]))
+		r.env.retry = retryFor(kv)
 		if err := r.env.reopen(r.w); err != nil {
 			return "err open", ""
 		}
-		return r.syncAndReport(kv, r.ctx("resume"))
+		base := "resume"
+		if r.pending != "" {
+			base += "." + r.pending
+			r.pending = ""
+		}
+		return r.syncAndReport(kv, r.ctx(base))
 	case "rstate":
 		if r.env == nil || r.env.w == nil {
 			return "bad-op", ""
@@ -432,17 +452,39 @@ func (r *recRunner) parseTx(s string) (*rTx, error) {
 	return t, nil
 }
 
-func (r *recRunner) syncAndReport(kv map[string]string, ctx string) (string, string) {
-	r.env.fc.mu.Lock()
-	r.env.fc.filterCalls = 0
-	r.env.fc.filterFailAt = atoi(kv["failat"])
-	r.env.fc.mu.Unlock()
-	if !r.env.startSync(20 * time.Second) {
-		return "sync-stuck", ""
+// interruptOK validates the interruption options of rrecover / rrestart (the Lean driver applies the same rules).
+func (r *recRunner) interruptOK(kv map[string]string) bool {
+	lockat, failat := atoi(kv["lockat"]), atoi(kv["failat"])
+	if kv["halt"] != "" && (kv["halt"] != "1" || failat == 0) {
+		return false
 	}
-	// ground truth bookkeeping: look-ahead hypothesis for the blocks just scanned, with the window in force
-	tip := r.env.fc.tip().height
-	for h := r.scanned + 1; h <= tip; h++ {
+	if lockat == 0 {
+		return kv["how"] == ""
+	}
+	if failat != 0 {
+		return false
+	}
+	switch kv["how"] {
+	case "lock", "timeout":
+		return true
+	case "stop":
+		// stopping while the LAST block is fetched races with the final rescan: not generated
+		return int32(lockat) > r.scanned && int32(lockat) < r.env.fc.tip().height
+	}
+	return false
+}
+
+func retryFor(kv map[string]string) time.Duration {
+	if kv["halt"] == "1" {
+		return time.Hour
+	}
+	return 0
+}
+
+// account does the ground-truth bookkeeping for the blocks up to height upTo, scanned with the window in force: the
+// look-ahead hypothesis (every index a block pays is < W beyond the highest index paid in EARLIER blocks).
+func (r *recRunner) account(upTo int32) {
+	for h := r.scanned + 1; h <= upTo; h++ {
 		blockMax := map[[2]int]int{}
 		for _, t := range r.order {
 			if t.h != h {
@@ -471,14 +513,108 @@ func (r *recRunner) syncAndReport(kv map[string]string, ctx string) (string, str
 			}
 		}
 	}
-	r.scanned = tip
-	r.env.fc.mu.Lock()
-	fired := r.env.fc.filterFailAt != 0 && r.env.fc.filterCalls >= r.env.fc.filterFailAt
-	r.env.fc.mu.Unlock()
+	if upTo > r.scanned {
+		r.scanned = upTo
+	}
+}
+
+// waitParked waits until a goroutine running `fn` is blocked on a channel receive (the wallet's locker goroutine or
+// Stop waiting for recovery() to return: by then the recovery's quit flag is set).
+func waitParked(fn string) {
+	for i := 0; i < 1000; i++ {
+		if goroutineParked(fn, "chan receive") {
+			return
+		}
+		time.Sleep(2 * time.Millisecond)
+	}
+}
+
+func (r *recRunner) syncAndReport(kv map[string]string, ctx string) (string, string) {
+	fc := r.env.fc
+	lockat, how, halt := int32(atoi(kv["lockat"])), kv["how"], kv["halt"] == "1"
+	fc.mu.Lock()
+	fc.filterCalls = 0
+	fc.filterFailAt = atoi(kv["failat"])
+	fc.failHeight = 0
+	fc.mu.Unlock()
+	tip := fc.tip().height
+	// the quit flag is looked at once per height, before the block is fetched: an interruption while the last block
+	// (or a block outside the range) is fetched changes nothing
+	interrupts := lockat > r.scanned && lockat < tip
+	if lockat != 0 {
+		fc.armHold(lockat)
+		defer fc.disarmHold()
+	}
+	if !r.env.beginSync() {
+		return "sync-stuck", ""
+	}
+wait:
+	for {
+		switch r.env.waitSync(20 * time.Second) {
+		case "stuck":
+			return "sync-stuck", ""
+		case "done":
+			break wait
+		case "failed":
+			if !halt {
+				continue // syncWithChain fails and is retried in-process by waitForSync
+			}
+			// Stop waits for the failed attempt to unwind (the batch's database transaction is rolled back); the
+			// retry timer (1 h) never fires: the next attempt is made by a "new process" (rrestart)
+			r.env.stop()
+			fc.mu.Lock()
+			fh := fc.failHeight
+			fc.mu.Unlock()
+			// what the earlier batches committed stays
+			r.account(r.scanned + (fh-1-r.scanned)/recBatch*recBatch)
+			r.pending = "after-failed-batch"
+			return "failed-and-stopped", ""
+		case "hold":
+			fc.mu.Lock()
+			release := fc.holdRelease
+			fc.mu.Unlock()
+			switch how {
+			case "lock":
+				r.env.w.Lock()
+				waitParked("wallet.(*Wallet).walletLocker")
+			case "timeout":
+				ch := make(chan time.Time)
+				if err := r.env.w.Unlock(prvPass, ch); err != nil {
+					close(release)
+					return "err unlock", ""
+				}
+				ch <- time.Now()
+				waitParked("wallet.(*Wallet).walletLocker")
+			case "stop":
+				done := make(chan struct{})
+				go func() { r.env.stop(); close(done) }()
+				waitParked("wallet.(*Wallet).Stop")
+				close(release)
+				select {
+				case <-done:
+				case <-time.After(20 * time.Second):
+					return "sync-stuck", ""
+				}
+				// the batches completed before the interruption are committed
+				r.account(r.scanned + (lockat-r.scanned)/recBatch*recBatch)
+				r.pending = "after-stop-interrupt"
+				return "interrupted-and-stopped", ""
+			}
+			close(release)
+		}
+	}
+	// ground truth bookkeeping: look-ahead hypothesis for the blocks just scanned, with the window in force
+	r.account(tip)
+	fc.mu.Lock()
+	fired := fc.filterFailAt != 0 && fc.filterCalls >= fc.filterFailAt
+	fc.mu.Unlock()
 	if fired {
 		// syncWithChain failed once and was retried in-process by waitForSync
 		r.tainted = true
 		return "retried-after-failure", r.oracle("retry-after-failed-batch")
+	}
+	if interrupts {
+		ctx += map[string]string{"lock": ".interrupted-by-lock", "timeout": ".interrupted-by-unlock-timeout"}[how]
 	}
 	// hyp: the oracle's own evaluation of the look-ahead hypothesis; the Lean driver evaluates the hypotheses of
 	// theorem C16_complete (checkWF && checkLA) on the same chain and the two must agree
@@ -961,6 +1097,27 @@ func (recEngine) Generate(rng *rand.Rand, tier string) []core.Case {
 	if len(ops) > 0 {
 		cases = append(cases, core.Case{Ops: ops, Tags: []string{"birthday"}})
 	}
+
+	// (b'') interrupted-and-resumed recoveries (generated last: the cases above do not depend on them)
+	nIntr := 6
+	if thorough {
+		nIntr = 40
+	}
+	for c := 0; c < nIntr; c++ {
+		for _, kind := range []string{"lock", "timeout", "stop", "halt"} {
+			for _, resumed := range []bool{false, true} {
+				w := ws[rng.Intn(len(ws))]
+				cases = append(cases, genInterrupted(rng, gt, w, 6+rng.Intn(16), false, kind, resumed, c))
+			}
+		}
+	}
+	// … across the batch boundary: the first batch is committed when the run ends early
+	for i, kind := range []string{"lock", "stop", "halt", "timeout"} {
+		if i >= 3 && !thorough {
+			break
+		}
+		cases = append(cases, genInterrupted(rng, gt, 3, 2100, true, kind, i%2 == 1, i))
+	}
 	return cases
 }
 
@@ -1010,90 +1167,111 @@ func genHidden(rng *rand.Rand, gt int64, c int) core.Case {
 	return core.Case{Ops: ops, Tags: tags}
 }
 
+// chainGen produces the blocks of one full-loop case: payments to chosen (scope, branch, index) patterns relative to
+// the next unfound index before the block (reuse, next, jump of exactly W-1, anything within the window, and — when
+// `violate` — W and W+1, outside the hypothesis), spends of own outputs.
+type chainGen struct {
+	rng     *rand.Rand
+	gt      int64
+	w       int
+	long    bool
+	violate bool
+	next    map[[2]int]int // next unfound per branch according to the payments so far
+	unspent [][2]int
+	txid    int
+	h       int
+}
+
+func newChainGen(rng *rand.Rand, gt int64, w int, long bool) *chainGen {
+	return &chainGen{rng: rng, gt: gt, w: w, long: long, next: map[[2]int]int{}, txid: 1, h: 1}
+}
+
+func (g *chainGen) mkBlock(dense bool) string {
+	rng, w := g.rng, g.w
+	scopes := []int{44, 49, 84, 86}
+	var txs []string
+	n := 0
+	if dense {
+		n = 1 + rng.Intn(3)
+	} else if !g.long && rng.Intn(3) > 0 {
+		n = 1 + rng.Intn(2)
+	}
+	blockNext := map[[2]int]int{}
+	for k, v := range g.next {
+		blockNext[k] = v
+	}
+	for i := 0; i < n; i++ {
+		var ins, outs []string
+		// inputs: external, or spend an own unspent output
+		if len(g.unspent) > 0 && rng.Intn(3) == 0 {
+			k := rng.Intn(len(g.unspent))
+			ins = append(ins, fmt.Sprintf("%d.%d", g.unspent[k][0], g.unspent[k][1]))
+			g.unspent = append(g.unspent[:k], g.unspent[k+1:]...)
+		} else {
+			ins = append(ins, "e")
+		}
+		nout := 1 + rng.Intn(3)
+		for o := 0; o < nout; o++ {
+			if rng.Intn(5) == 0 {
+				outs = append(outs, fmt.Sprintf("x.%d", 1000+rng.Intn(1000)))
+				continue
+			}
+			s := scopes[rng.Intn(4)]
+			b := rng.Intn(2)
+			k := [2]int{s, b}
+			// index relative to the next unfound index BEFORE this block: reuse, next, jump of exactly W-1 beyond, W (edge), W+1 (miss)
+			base := g.next[k]
+			var idx int
+			switch x := rng.Intn(10); {
+			case x < 2 && base > 0:
+				idx = rng.Intn(base)
+			case x < 5:
+				idx = base
+			case x < 8:
+				idx = base + w - 1
+			case x < 9 || !g.violate:
+				idx = base + rng.Intn(w)
+			default:
+				idx = base + w + rng.Intn(2)
+			}
+			if idx+1 > blockNext[k] {
+				blockNext[k] = idx + 1
+			}
+			outs = append(outs, fmt.Sprintf("%d.%d.%d.%d", s, b, idx, 10000+g.txid*10+o))
+			g.unspent = append(g.unspent, [2]int{g.txid, o})
+		}
+		txs = append(txs, fmt.Sprintf("%d:%s:%s", g.txid, strings.Join(ins, "+"), strings.Join(outs, "+")))
+		g.txid++
+	}
+	g.next = blockNext
+	return fmt.Sprintf("rblk t=%d txs=%s", g.gt+int64(g.h)*600, strings.Join(txs, ";"))
+}
+
+// blocks emits the next n blocks (long chains: dense only around the batch boundary and at a few heights).
+func (g *chainGen) blocks(n int) []string {
+	var ops []string
+	for i := 0; i < n; i++ {
+		dense := !g.long || (g.h%997 == 3) || (g.h >= 1995 && g.h <= 2006)
+		ops = append(ops, g.mkBlock(dense))
+		g.h++
+	}
+	return ops
+}
+
 // genChain builds one full-loop case: a chain paying chosen (scope, branch, index) patterns.
 func genChain(rng *rand.Rand, gt int64, w, nBlocks int, long bool, c int) core.Case {
 	tags := []string{"full-loop", fmt.Sprintf("window-%d", w)}
-	scopes := []int{44, 49, 84, 86}
 	ops := []string{fmt.Sprintf("rinit seed=%d scopes=44,49,84,86 batch=2000", 1+c%3)}
-	next := map[[2]int]int{} // next unfound per branch according to the payments so far
-	type own struct{ tx, idx int }
-	var unspent []own
-	txid := 1
-	violate := rng.Intn(4) == 0 // allow jumps beyond the window (may be missed; not flagged)
-	if violate {
+	g := newChainGen(rng, gt, w, long)
+	g.violate = rng.Intn(4) == 0 // allow jumps beyond the window (may be missed; not flagged)
+	if g.violate {
 		tags = append(tags, "beyond-window")
-	}
-	mkBlock := func(h int, dense bool) string {
-		var txs []string
-		n := 0
-		if dense {
-			n = 1 + rng.Intn(3)
-		} else if !long && rng.Intn(3) > 0 {
-			n = 1 + rng.Intn(2)
-		}
-		blockNext := map[[2]int]int{}
-		for k, v := range next {
-			blockNext[k] = v
-		}
-		for i := 0; i < n; i++ {
-			var ins, outs []string
-			// inputs: external, or spend an own unspent output
-			if len(unspent) > 0 && rng.Intn(3) == 0 {
-				k := rng.Intn(len(unspent))
-				ins = append(ins, fmt.Sprintf("%d.%d", unspent[k].tx, unspent[k].idx))
-				unspent = append(unspent[:k], unspent[k+1:]...)
-			} else {
-				ins = append(ins, "e")
-			}
-			nout := 1 + rng.Intn(3)
-			for o := 0; o < nout; o++ {
-				if rng.Intn(5) == 0 {
-					outs = append(outs, fmt.Sprintf("x.%d", 1000+rng.Intn(1000)))
-					continue
-				}
-				s := scopes[rng.Intn(4)]
-				b := rng.Intn(2)
-				k := [2]int{s, b}
-				// index relative to the next unfound index BEFORE this block: reuse, next, jump of exactly W-1 beyond, W (edge), W+1 (miss)
-				base := next[k]
-				var idx int
-				switch x := rng.Intn(10); {
-				case x < 2 && base > 0:
-					idx = rng.Intn(base)
-				case x < 5:
-					idx = base
-				case x < 8:
-					idx = base + w - 1
-				case x < 9 || !violate:
-					idx = base + rng.Intn(w)
-				default:
-					idx = base + w + rng.Intn(2)
-				}
-				if idx+1 > blockNext[k] {
-					blockNext[k] = idx + 1
-				}
-				outs = append(outs, fmt.Sprintf("%d.%d.%d.%d", s, b, idx, 10000+txid*10+o))
-				unspent = append(unspent, own{txid, o})
-			}
-			txs = append(txs, fmt.Sprintf("%d:%s:%s", txid, strings.Join(ins, "+"), strings.Join(outs, "+")))
-			txid++
-		}
-		next = blockNext
-		return fmt.Sprintf("rblk t=%d txs=%s", gt+int64(h)*600, strings.Join(txs, ";"))
-	}
-	h := 1
-	emitBlocks := func(n int) {
-		for i := 0; i < n; i++ {
-			dense := !long || (h%997 == 3) || (h >= 1995 && h <= 2006)
-			ops = append(ops, mkBlock(h, dense))
-			h++
-		}
 	}
 	first := nBlocks
 	if !long && rng.Intn(2) == 0 {
 		first = 1 + rng.Intn(nBlocks)
 	}
-	emitBlocks(first)
+	ops = append(ops, g.blocks(first)...)
 	fail := 0
 	if rng.Intn(3) == 0 {
 		fail = 1 + rng.Intn(6)
@@ -1108,9 +1286,85 @@ func genChain(rng *rand.Rand, gt int64, w, nBlocks int, long bool, c int) core.C
 	}
 	ops = append(ops, fmt.Sprintf("rrecover w=%d locked=%d failat=%d", w, rng.Intn(2), fail))
 	if first < nBlocks {
-		emitBlocks(nBlocks - first)
+		ops = append(ops, g.blocks(nBlocks-first)...)
 		tags = append(tags, "resumed")
 		ops = append(ops, fmt.Sprintf("rrestart w=%d failat=%d", w, rng.Intn(3)))
+	}
+	ops = append(ops, "rstate")
+	return core.Case{Ops: ops, Tags: tags}
+}
+
+// genInterrupted builds one full-loop case in which a run of recovery() ENDS EARLY and the recovery is resumed:
+//
+//	kind lock / timeout  the wallet is locked (Wallet.Lock / unlock timeout) while the block loop fetches block k:
+//	                     syncWithChain fails and is retried in-process
+//	kind stop            the wallet is stopped and unloaded at that point; a later rrestart resumes
+//	kind halt            FilterBlocks fails inside a batch and the wallet is stopped before any in-process retry
+//	                     (sync retry interval 1 h); a later rrestart resumes in a "new process"
+//
+// in the first run (`resumed` = false: recovery from seed) or in a later run over new blocks (`resumed` = true).
+// C16 quantifies over interrupted-and-resumed recoveries: the completeness oracle is evaluated on every final state.
+func genInterrupted(rng *rand.Rand, gt int64, w, nBlocks int, long bool, kind string, resumed bool, c int) core.Case {
+	tags := []string{"full-loop", fmt.Sprintf("window-%d", w), "interrupted", "interrupted-" + kind}
+	ops := []string{fmt.Sprintf("rinit seed=%d scopes=44,49,84,86 batch=2000", 1+c%3)}
+	g := newChainGen(rng, gt, w, long)
+	g.violate = rng.Intn(6) == 0
+	if g.violate {
+		tags = append(tags, "beyond-window")
+	}
+	if long {
+		tags = append(tags, "batch-boundary")
+	}
+	from := 0 // height the interrupted run starts above
+	if resumed {
+		tags = append(tags, "resumed")
+		first := 1 + rng.Intn(nBlocks-2)
+		if long {
+			first = 3 + rng.Intn(20)
+		}
+		ops = append(ops, g.blocks(first)...)
+		ops = append(ops, fmt.Sprintf("rrecover w=%d locked=%d failat=0", w, rng.Intn(2)))
+		ops = append(ops, g.blocks(nBlocks-first)...)
+		from = first
+	} else {
+		ops = append(ops, g.blocks(nBlocks)...)
+	}
+	head := fmt.Sprintf("rrestart w=%d", w)
+	if !resumed {
+		head = fmt.Sprintf("rrecover w=%d locked=%d", w, rng.Intn(2))
+	}
+	stopped := false
+	switch kind {
+	case "lock", "timeout":
+		// anywhere in the run; the last block (not noticed) is a control
+		k := from + 1 + rng.Intn(nBlocks-from)
+		if long {
+			k = from + recBatch + rng.Intn(nBlocks-from-recBatch) // after the first batch was committed
+		}
+		ops = append(ops, fmt.Sprintf("%s failat=0 lockat=%d how=%s", head, k, kind))
+	case "stop":
+		k := from + 1 + rng.Intn(nBlocks-from-1)
+		if long {
+			k = from + recBatch + rng.Intn(nBlocks-from-recBatch)
+		}
+		ops = append(ops, fmt.Sprintf("%s failat=0 lockat=%d how=stop", head, k))
+		stopped = true
+	case "halt":
+		n := 1 + rng.Intn(3)
+		if long {
+			n = 10 + rng.Intn(5) // batch 1 makes about 9 requests (its dense blocks), batch 2 about 7
+		}
+		ops = append(ops, fmt.Sprintf("%s failat=%d halt=1", head, n))
+		stopped = true // unless the run makes fewer than n requests: then the rrestart below is a plain restart
+	}
+	// the chain may grow while the wallet is down / before the next restart
+	more := 0
+	if !long && rng.Intn(2) == 0 {
+		more = 1 + rng.Intn(4)
+		ops = append(ops, g.blocks(more)...)
+	}
+	if stopped || more > 0 || rng.Intn(2) == 0 {
+		ops = append(ops, fmt.Sprintf("rrestart w=%d failat=0", w))
 	}
 	ops = append(ops, "rstate")
 	return core.Case{Ops: ops, Tags: tags}
